@@ -89,9 +89,16 @@ def do_case(ctx, inp):
     # the judged call below must still answer for the array as the caller wrote it
     for pm, pa in inp.get("pre", []):
         arr.ndint_compress(method=pm, axis=pa) if dim > 1 else arr.ndint_compress(method=pm)
-    res = arr.ndint_compress(method=method, axis=axis) if dim > 1 else arr.ndint_compress(method=method)
+    if dim == 1 and inp.get("axis1d") is not None:
+        res = arr.ndint_compress(method=method, axis=inp["axis1d"])          # a vector with the axis spelled out
+    elif dim == 2 and inp.get("flat"):
+        res = arr.ndint_compress(method=method)                               # axis=None: "the data array is first flattened"
+    else:
+        res = arr.ndint_compress(method=method, axis=axis) if dim > 1 else arr.ndint_compress(method=method)
     res = np.asarray(res).tolist()
     flat = m if dim == 1 else [x for r in m for x in r] if dim == 2 else [x for s in m for r in s for x in r]
+    if dim == 2 and inp.get("flat"):
+        dim, m, axis = 1, flat, None
     nz = {abs(x) for x in flat if x != 0}
     ctx.case(inp, nontrivial=len({x for x in flat if x != 0}) > 1, tags={f"dim-{dim}", f"method-{method}", f"axis-{axis}"}
              | ({"same-array-object-compressed-before"} if inp.get("pre") else set()))
@@ -175,13 +182,18 @@ def run(ctx):
                 m = [list(c) for c in zip(*m)]
             do_case(ctx, {"dim": 2, "method": rng.choice(["shadow", "shadow", "prio", "rank", method]), "axis": axis, "m": m})
         elif r < 0.5:
-            do_case(ctx, {"dim": 1, "method": method, "m": [rng.choice(VALS) for _ in range(rng.randint(1, 6))]})
+            case = {"dim": 1, "method": method, "m": [rng.choice(VALS) for _ in range(rng.randint(1, 6))]}
+            # the vector with axis=0 spelled out (min / max then reduce the vector to one number: not compared here)
+            if method not in ("min", "max") and rng.random() < 0.5: case["axis1d"] = 0
+            do_case(ctx, case)
         elif r < 0.8:
             nr, nc = rng.randint(1, 4), rng.randint(1, 6)
             case = {"dim": 2, "method": method, "axis": rng.choice([0, 1]),
                     "m": [[rng.choice(VALS) for _ in range(nc)] for _ in range(nr)]}
             if rng.random() < 0.35:
                 case["pre"] = [[rng.choice(METHODS), rng.choice([0, 1])] for _ in range(rng.randint(1, 2))]
+            elif rng.random() < 0.15:
+                case["flat"] = True; case.pop("axis")
             do_case(ctx, case)
         else:
             if method in ("min", "max"): method = "shadow"
